@@ -286,7 +286,12 @@ def hdl21_naming_encoder(obj: Any) -> Any:
         # Not supported as parameters
         raise RuntimeError(f"Invalid `hdl21.paramclass` field {obj}")
 
-    if isinstance(obj, (Module, ExternalModule, Generator)):
+    if isinstance(obj, ExternalModule):
+        # External modules are told apart by their `domain` as well as their name:
+        # `d1.Cell` and `d2.Cell` are different cells, which one design may well use side by side.
+        return f"{obj.domain}:{module_qualname(obj)}"
+
+    if isinstance(obj, (Module, Generator)):
         # Use qualified class names/paths
         return module_qualname(obj)
 
@@ -297,7 +302,7 @@ def hdl21_naming_encoder(obj: Any) -> Any:
 
     if isinstance(obj, ExternalModuleCall):
         # Mix the qualified class names/paths with the parameters
-        return module_qualname(obj.module) + _unique_name(obj.params)
+        return hdl21_naming_encoder(obj.module) + _unique_name(obj.params)
 
     # Dataclasses also require custom handling, as the default encoder deep-copies them,
     # often invoking methods not supported on several Hdl21 types.
